@@ -99,7 +99,8 @@ class Check(PropCheck):
     id = 'C08'
     stream = 'C08'
     exhaustive_in = ('quick', 'thorough')
-    extra_modules = ('AHP.Props.AttrStores',)
+    extra_modules = ('AHP.Props.AttrStores',      # the four models of the attribute store are one function
+                     'AHP.Props.C08Code')         # Tags.isValidAttributeName itself, interpreted in Lean, = validAttrName
     rule = ('histories over 6 names (plain, data-*, boolean, linked dot-name, upper-case spelling, invalid) x 6 values (plain, '
             'empty, with a double quote, with spaces, numeric, non-ASCII) and the writers setAttribute, setAttributes, '
             'removeAttribute, attributes[...]=, del attributes[...], dot-assignment: exhaustive to length 2 over 80 operations and '
